@@ -99,6 +99,7 @@ type world struct {
 	sched   scheduler
 	fnsSeen map[*ssa.Function]bool
 	natives map[string]bool
+	stubs   map[string]value
 	counter int64 // monotone virtual clock / fresh ids
 }
 
